@@ -261,9 +261,15 @@ def trace_to_model(evs, meta, x):
         i += 1
     if k >= 200:
         return None
-    # a 403 answering one of the ordinary checks is matched by the StunAgent too (their transactions share the table): out of scope
+    # A 403 answering one of the ORDINARY checks of x is matched by the component's StunAgent too (all transactions of the component share
+    # the table) and conn_check_handle_inbound_stun compares only its SOURCE with the remote address of the selected pair
+    # (nice_address_equal (from, &pair->remote->c.addr)), not the local address it arrives on: with several local addresses, a 403 sent by
+    # the selected remote address in answer to a check x made from ANOTHER local address revokes the consent of the selected pair as well
+    # (seen with VERIF_SEED=1: revocation 'mid', the 403 to a check from 10.0.1.1 arrives 5 ms after 10.0.1.3 > 10.0.0.2 was selected).
+    # The model's table holds the consent checks only, so such runs are outside the replay: any 403 from the selected remote address that
+    # reaches x after the selection and does not answer a consent check, whatever local address it is sent to.
     for e in evs:
-        if e.kind == "pkt" and "stun" in e.f and "c3" in e.f and _err(e) == 403 and e.f[0] == sel[1] and e.f[1] == sel[0] and e.f[2] in ("ok", "dup") \
+        if e.kind == "pkt" and "stun" in e.f and "c3" in e.f and _err(e) == 403 and e.f[0] == sel[1] and e.f[2] in ("ok", "dup") \
                 and e.t + delay >= sel_t and _tid(e) not in tidmap:
             return None
     stop = None
@@ -357,13 +363,13 @@ def session_tie(chk, traces, per_file=300):
             except (IndexError, ValueError, KeyError):
                 items = None
             if items:
-                jobs.append((meta.get("kind", "?"), x, items))
+                jobs.append((meta.get("kind", "?"), x, items, evs, meta))
     bad = []
     n_ok = 0
     for i in range(0, len(jobs), per_file):
         chunk = jobs[i:i + per_file]
         body = COQ_DRIVER
-        for j, (_k, _x, items) in enumerate(chunk):
+        for j, (_k, _x, items, _evs, _meta) in enumerate(chunk):
             evl = "; ".join("ev %d (%s)" % (t, a) for t, _o, a, _e in items if a is not None)
             body += "Definition r%d := show (replay cF (init CONNECTING None) [%s] []).\nEval vm_compute in r%d.\n" % (j, evl, j)
         rc, out = vlib.coq_eval(["Nice.Agent.ConsentSessionModel", "Nice.Gen.CompState"], body, timeout=1200)
@@ -374,12 +380,22 @@ def session_tie(chk, traces, per_file=300):
         if len(blocks) < len(chunk):
             chk.broken_obligation("correspondence:consent-session", "unexpected output of the replay (%d results for %d traces)\n%s" % (len(blocks), len(chunk), out[-800:]))
             return
-        for (kind, x, items), blk in zip(chunk, blocks):
+        for (kind, x, items, evs_, meta_), blk in zip(chunk, blocks):
             shown = [(int(a), int(b), int(c)) for a, b, c in re.findall(r"\(\s*(\d+),\s*(\d+),\s*(-?\d+)\s*\)", blk)]
             why = _compare(items, shown)
             chk.count_case("consent-session %s agent %d" % (kind, x), True, "trace-" + kind)
             if why:
                 bad.append("%s, agent %d: %s" % (kind, x, why))
+                if os.environ.get("C13_TIE_DUMP"):      # debugging aid: the model events and what the model printed, one disagreement per block
+                    with open(os.environ["C13_TIE_DUMP"], "a") as f:
+                        f.write("=== %s agent %d: %s\n" % (kind, x, why))
+                        for it in items:
+                            f.write("   %r\n" % (it,))
+                        f.write("   model: %r\n" % (shown,))
+                        f.write("   meta: %r\n" % ({k: v for k, v in meta_.items() if k != "_out"},))
+                        for e in evs_:
+                            if e.kind in ("pkt", "sig", "api"):
+                                f.write("      %r\n" % (e,))
             else:
                 n_ok += 1
     chk.cov["traces_validated_against_impl"] = chk.cov.get("traces_validated_against_impl", 0) + n_ok
